@@ -116,6 +116,9 @@ void cyclic_ops()
     (void)it[drv::make<std::ptrdiff_t>()];
     (void)(it - it);
     (void)(it < it);
+    (void)(it > it);
+    (void)(it <= it);
+    (void)(it >= it);
   }
 }
 }
